@@ -425,7 +425,7 @@ def run_c07(ctx):
         "the parser is abstracted to: consumes items, may stop at any item, succeeds only after EOF (all of parse.go's error exits go through Tree.recover)",
         "close of the channel and the end of the goroutine are one step of the model; the harness waits for the goroutine to go (250 ms, 5 s in the solo re-run) unless it is blocked",
         "verdicts that rest on a timer (hang, goroutine left, no exit event, silent worker) are suspicions: each is run again alone with limits ten times larger and only what shows again is reported; the rest is counted as timing_unconfirmed",
-        "token boundaries that do not matter for C07 (word directly followed by a comment, // comment at the end of the text) are accepted either way by the trace validator; C10 judges them",
+        "token boundaries that do not matter for C07 (word directly followed by a comment, // comment at the end of the text) are accepted either way by the trace validator (C10 judges them); Separator items on the channel are optional silent steps: the compared stream is that of the other items",
         "texts longer than the bound are sampled, not exhausted",
         "memory-level races between the lexer goroutine and the parser are outside the TLA+ model: a slice of the calls runs under the Go race detector (trusted observer)",
     ])
